@@ -63,6 +63,19 @@ mpz_miller_rabin (mpz_srcptr n, int reps, gmp_randstate_t rnd)
   unsigned long int k;
   int is_prime;
   TMP_DECL;
+
+  /* The tests below need n > 10: the Fermat base 210 = 2*3*5*7 is 0 modulo
+     2, 3, 5 and 7 (those primes were reported composite), and n = 0 and
+     n = 3 lead to a zero modulus.  */
+  if (mpz_cmp_ui (n, 10L) <= 0)
+    {
+      unsigned long v;
+      if (mpz_sgn (n) <= 0)
+	return 0;
+      v = mpz_get_ui (n);
+      return v == 2 || v == 3 || v == 5 || v == 7;
+    }
+
   TMP_MARK;
 
   MPZ_TMP_INIT (nm1, SIZ (n) + 1);
